@@ -174,6 +174,13 @@ def nested():
                                  ('e', T('BOOLEAN', [('I', APP, 3)]), 'opt'), ('f', T('NULL', [('E', APP, 2)]), 'opt')])
     out.append((mixed, {'a': 'hi', 'b': {'x': 1}, 'c': 2, 'd': 0}))
     out.append((mixed, {'a': '', 'b': {'x': 0}, 'c': 0, 'd': 3, 'e': True, 'f': None}))
+    # SET member that is an untagged CHOICE whose chosen alternative is a *tagged* CHOICE: the member sorts by the tag its
+    # encoding starts with ([5]), not by the innermost alternative's (UNIVERSAL 2); a sibling [3] sits between the two keys
+    deep = T('CHOICE', [('E', CTX, 5)], fields=[('i', T('INTEGER'), 'req'), ('b', T('BOOLEAN'), 'req')])
+    outerch = T('CHOICE', [], fields=[('n', deep, 'req'), ('s', T('OCTETSTRING'), 'req')])
+    nestset = T('SET', [], fields=[('c', outerch, 'req'), ('x', T('INTEGER', [('I', CTX, 3)]), 'req')])
+    out.append((nestset, {'c': ('n', ('i', 7)), 'x': 1}))
+    out.append((nestset, {'c': ('s', b'z'), 'x': 1}))
     zeros = T('SEQUENCE', [], fields=[('i', T('INTEGER'), 'req'), ('z', T('INTEGER'), 'req'), ('b', T('BOOLEAN'), 'req'),
                                       ('e', T('ENUMERATED'), 'req'), ('j', T('INTEGER'), 'req')])
     out.append((zeros, {'i': 3, 'z': 0, 'b': False, 'e': 0, 'j': 5}))
@@ -269,7 +276,9 @@ def outer_tag(t):
     return (0, UNIVERSAL_NUMBER[t['k']])
 
 
-ANY_VALUES = [b'\x02\x01\x05', b'\x04\x00', b'\x30\x03\x01\x01\xff', b'\x0c\x02hi']
+ANY_VALUES = [b'\x02\x01\x05', b'\x04\x00', b'\x30\x03\x01\x01\xff', b'\x0c\x02hi',
+              # an indefinite-length element nested in another one: what a CER-encoded inner value looks like
+              b'\x30\x80\x02\x01\x07\x30\x80\x01\x01\xff\x00\x00\x00\x00']
 
 
 def static_tags(t):
